@@ -1,11 +1,11 @@
 SPECIFICATION Spec
 CONSTANTS
-  Sel = {"til", "call"}
-  N = 5
+  Sel = {"esc", "dol1", "dol2", "til", "pg", "call"}
+  N = 4
   N1 = 5
   N2 = 3
   NCall = 4
-  Limit = 4
+  Limit = 3
   NameMax = 127
   AppName <- AppNameMC
   AppVersion <- AppVersionMC
